@@ -46,7 +46,7 @@ namespace igris
         while (true)
         {
             // Skip delimiters
-            while (strchr(delims, *ptr) != NULL && ptr != end)
+            while (ptr != end && strchr(delims, *ptr) != NULL)
                 ptr++;
 
             if (ptr == end)
